@@ -13,7 +13,7 @@ import (
 func init() { register("C08", checkC08) }
 
 func checkC08(r *Run) {
-	r.Explain = "Decides four agreement conditions without which the decoded binary log cannot equal the JSON log for some program: AGNOSTIC the front-end is encoding-agnostic — the files of package zerolog common to both build configurations import neither encoder package, the configuration-specific files define no method of Event/Context/Array/Logger, and json.Encoder and cbor.Encoder offer the same method set with identical signatures (so keys, field order and call sequence come from the same code); ALPHABET the decoder covers what the encoder emits — all 8 major types in cbor2JsonOneObject, every tag number the encoder's constant tag headers spell is a case of decodeTagData, every simple/float minor the encoder uses is a case of decodeSimpleFloat, float16 is never emitted; WIDTH the item argument is accumulated and printed over the full unsigned 64-bit range (no narrowing conversion between the argument reader and the number formatter) and the integer appenders of both encoders widen losslessly (A6); ESCAPE bytes read from the input reach the JSON output only through decodeStringComplex (checked iteration path by iteration path like the JSON escaper), after a certified scan, or on the documented verbatim channel (noQuotes: embedded JSON, address/hex octets that are re-formatted)."
+	r.Explain = "Decides four agreement conditions without which the decoded binary log cannot equal the JSON log for some program: AGNOSTIC the front-end is encoding-agnostic — the files of package zerolog common to both build configurations import neither encoder package, the configuration-specific files define no method of Event/Context/Array/Logger, and json.Encoder and cbor.Encoder offer the same method set with identical signatures (so keys, field order and call sequence come from the same code); ALPHABET the decoder covers what the encoder emits — all 8 major types in cbor2JsonOneObject, every tag number the encoder's constant tag headers spell is a case of decodeTagData, every simple/float minor the encoder uses is a case of decodeSimpleFloat, float16 is never emitted; WIDTH the item argument is accumulated and printed over the full unsigned 64-bit range (no narrowing conversion between the argument reader and the number formatter) and the integer appenders of both encoders widen losslessly (A6); ESCAPE bytes read from the input reach the JSON output only through decodeStringComplex (checked iteration path by iteration path like the JSON escaper), after a certified scan, or on the documented verbatim channel (noQuotes: embedded JSON, address/hex octets that are re-formatted); ELEM every slice appender of the CBOR encoder renders an element exactly as its scalar sibling does; B64 the JSON build and the CBOR decoder render RawCBOR data URLs with the same base64 Encoding variable; HOOK both builds bind the encoder's marshal hook to a function that reads InterfaceMarshalFunc at call time."
 	r.NotDec = "Equality of decoded values between the two builds (float text vs value, timestamp precision, IP/MAC notation): value-level, stated and not approximated."
 	r.Assume = []string{"net/strconv/time formatting of decoded values is outside the claim"}
 	pj := r.Use("J")
@@ -31,6 +31,13 @@ func checkC08(r *Run) {
 	ruleA6(r, pj, []string{"internal/json"})
 	r.cur = "B"
 	ruleDecoderEscape(r, pb)
+	// scalar/slice agreement inside the CBOR encoder (the JSON encoder's is part of C02)
+	ruleElemAgreementIn(r, pb, cborRel, 10)
+	ruleBuildAgreement(r, pj, pb)
+	r.cur = "B"
+	r.Floor("ELEM", 10)
+	r.Floor("B64", 1)
+	r.Floor("HOOK", 4)
 	r.Floor("AGNOSTIC", 20)
 	r.Floor("ALPHABET", 18)
 	r.Floor("WIDTH", 3)
@@ -518,4 +525,113 @@ func ruleTagOctets(r *Run, p *Prog) {
 		})
 		r.Ob("ESCAPE", FnName(tag)+"/verbatim-only-embedded-json", p.Pos(c.Pos()), okc, true, tern(okc, "verbatim payload "+rawUse+" only under the embedded-JSON tag", "a verbatim (unescaped) byte string is "+rawUse+" outside the embedded-JSON arm: arbitrary input bytes reach the JSON output"))
 	})
+}
+
+// ruleBuildAgreement: two places where the JSON build and the binary build (encoder + decoder)
+// must use the very same ingredient, or the decoded binary log differs from the JSON log:
+//  B64   the base64 alphabet of RawCBOR data URLs: the JSON build's appendCBOR and the CBOR decoder
+//        reference the same encoding/base64 Encoding variable;
+//  HOOK  both builds bind the encoder package's JSONMarshalFunc to a function that reads
+//        zerolog.InterfaceMarshalFunc when it is called (a value copied at init time ignores a
+//        marshaler installed later, in one build only).
+func ruleBuildAgreement(r *Run, pj, pb *Prog) {
+	b64vars := func(f *ssa.Function) map[string]bool {
+		out := map[string]bool{}
+		seen := map[*ssa.Function]bool{}
+		var visit func(g *ssa.Function, depth int)
+		visit = func(g *ssa.Function, depth int) {
+			if g == nil || g.Blocks == nil || seen[g] || depth > 3 {
+				return
+			}
+			seen[g] = true
+			eachInstr(g, func(b *ssa.BasicBlock, i int, in ssa.Instruction) {
+				for _, op := range in.Operands(nil) {
+					if gl, ok := (*op).(*ssa.Global); ok && gl.Pkg != nil && gl.Pkg.Pkg.Path() == "encoding/base64" {
+						out[gl.Name()] = true
+					}
+				}
+				if cc := callCommon(in); cc != nil {
+					if sc := staticCallee(cc); sc != nil && InModule(sc) && sc.Pkg == g.Pkg {
+						visit(sc, depth+1)
+					}
+				}
+			})
+		}
+		visit(f, 0)
+		return out
+	}
+	enc := pj.Func("", "appendCBOR")
+	dec := pb.Func(cborRel, "decodeStringToDataUrl")
+	if dec == nil {
+		// role: the decoder function with a string (mime type) parameter returning []byte
+		for _, f := range pb.ModFns {
+			if pkgRel(f) == cborRel && f.Parent() == nil && len(f.Params) == 2 && isStringType(f.Params[1].Type()) && f.Signature.Results().Len() == 1 && isByteSlice(f.Signature.Results().At(0).Type()) {
+				if _, ok := f.Params[0].Type().(*types.Pointer); ok {
+					dec = f
+				}
+			}
+		}
+	}
+	if r.Anchor(enc != nil && dec != nil, "B64", "appendCBOR (JSON build) and the decoder's data-URL function") {
+		r.cur = "J"
+		ev := b64vars(enc)
+		r.cur = "B"
+		dv := b64vars(dec)
+		same := len(ev) == 1 && len(dv) == 1
+		for k := range ev {
+			if !dv[k] {
+				same = false
+			}
+		}
+		r.Ob("B64", "data-url-alphabet", pb.Pos(dec.Pos()), same, true, tern(same, fmt.Sprintf("both builds render RawCBOR with base64.%v", keysOf(ev)), fmt.Sprintf("the JSON build renders RawCBOR with base64.%v, the CBOR decoder with base64.%v: the decoded binary log differs from the JSON log", keysOf(ev), keysOf(dv))))
+	}
+	for _, pr := range []struct {
+		p   *Prog
+		cfg string
+		rel string
+	}{{pj, "J", "internal/json"}, {pb, "B", cborRel}} {
+		r.cur = pr.cfg
+		hook := pr.p.Global(pr.rel, "JSONMarshalFunc")
+		imf := pr.p.Global("", "InterfaceMarshalFunc")
+		if !r.Anchor(hook != nil && imf != nil, "HOOK", pr.rel+".JSONMarshalFunc / zerolog.InterfaceMarshalFunc") {
+			continue
+		}
+		n := 0
+		for _, f := range pr.p.ModFns {
+			if pkgRel(f) != "" {
+				continue
+			}
+			eachInstr(f, func(b *ssa.BasicBlock, i int, in ssa.Instruction) {
+				st, ok := in.(*ssa.Store)
+				if !ok || st.Addr != ssa.Value(hook) {
+					return
+				}
+				n++
+				okc := false
+				why := descr(st.Val)
+				var fn *ssa.Function
+				switch x := stripChange(st.Val).(type) {
+				case *ssa.Function:
+					fn = x
+				case *ssa.MakeClosure:
+					fn, _ = x.Fn.(*ssa.Function)
+				}
+				if fn != nil && fn.Blocks != nil {
+					// reads the variable at call time and calls what it read
+					eachInstr(fn, func(_ *ssa.BasicBlock, _ int, y ssa.Instruction) {
+						if c, ok := y.(*ssa.Call); ok && !c.Call.IsInvoke() {
+							if g := loadedGlobal(c.Call.Value); g == imf {
+								okc = true
+							}
+						}
+					})
+					why = "a function that does not call InterfaceMarshalFunc as read at call time"
+				} else if g := loadedGlobal(st.Val); g == imf {
+					why = "the value InterfaceMarshalFunc had at init time"
+				}
+				r.Ob("HOOK", pr.rel+".JSONMarshalFunc/late-bound", pr.p.Pos(st.Pos()), okc, true, tern(okc, "bound to a function that reads InterfaceMarshalFunc on every call", "the "+pr.cfg+" build binds the encoder's marshal hook to "+why+": a marshaler installed later is honoured by one build and ignored by the other"))
+			})
+		}
+		r.Ob("HOOK", pr.rel+".JSONMarshalFunc/bound", "-", n >= 1, true, fmt.Sprintf("%d binding(s) of the encoder's marshal hook in package zerolog", n))
+	}
 }
